@@ -631,6 +631,8 @@ def run(chk):
     from . import c06
     chk.guard(c06.rule_r7, chk, rid="C01-R8", modules=("irispie.fords.simulators", "irispie.fords.shock_simulators"))
     chk.guard(c06.rule_r8, chk, rid="C01-R12")
+    from . import c08 as _c08
+    chk.guard(_c08.rule_r10, chk, rid="C01-R13")
     from .. import unused as _unused
     chk.guard(_unused.apply, chk, "C01-R91")
     from .. import basis as _basis
